@@ -170,6 +170,14 @@ def replay_macros(ctx, tree, behaviours, trace_to=None):
 
 
 # ------------------------------------------- macro table with guarded headers
+FDEF = {4: "(a,b) a - b", 5: "(b,a) a - b", 6: "(a,b) b - a"}
+PROBE = {0: "undef", 1: "v1(5,3)", 2: "v2(5,3)", 3: "v3(5,3)", 4: "5-3", 5: "3-5", 6: "3-5"}
+
+
+def defline(n, v):
+    return "#define %s%s" % (n, FDEF[v]) if v in FDEF else "#define %s v%d" % (n, v)
+
+
 def replay_macrotable(ctx, tree, q):
     """MacroTable.tla: #define / #undef / #include of guarded headers; the re-inclusion shortcut (guard memo +
     macro table) must never change the emitted text or the final macro table."""
@@ -206,16 +214,16 @@ def replay_macrotable(ctx, tree, q):
         lines = []
         for o in hist:
             n = names[o[1] - 1]
-            lines.append("#define %s v%d" % (n, o[2]) if o[0] == "def" else "#undef " + n if o[0] == "undef"
+            lines.append(defline(n, o[2]) if o[0] == "def" else "#undef " + n if o[0] == "undef"
                          else '#include "h%d.h"' % o[1])
         exp = ["G%d" % k for k in eout]
         for k in range(nk):
-            lines += ["#ifdef " + names[k], "P%d %s" % (k + 1, names[k]), "#else", "P%d undef" % (k + 1), "#endif"]
-            exp.append("P%d %s" % (k + 1, "v%d" % fin[k] if fin[k] else "undef"))
+            lines += ["#ifdef " + names[k], "P%d %s(5,3)" % (k + 1, names[k]), "#else", "P%d undef" % (k + 1), "#endif"]
+            exp.append("P%d%s" % (k + 1, PROBE[fin[k]]))
         f = "%s/t%d.c" % (d, i)
         open(f, "w").write("\n".join(lines) + "\n")
         p = vt.run_limited([tree + "/chibicc", "-E", f], timeout=20)
-        got = [" ".join(l.split()) for l in p.stdout.splitlines() if l.strip() and not l.startswith("#")]
+        got = ["".join(l.split()) for l in p.stdout.splitlines() if l.strip() and not l.startswith("#")]
         os.unlink(f)
         return hist, exp, got, p.returncode, "\n".join(lines)
 
@@ -316,6 +324,10 @@ def run(ctx):
              for b in beh if b["fail"] == "none" for n in b["nx"]]
     pairs = vt.subsample(pairs, ctx.seed, 8 if q else 1)
     replay_inproc(ctx, exe4, pairs, "cap4x")
+    # the macro-level sample (2c) is drawn now so that the large lists can be released
+    mb = vt.subsample(beh, ctx.seed, 80 if q else 4) + vt.subsample(pairs, ctx.seed + 1, 800 if q else 40)
+    nbeh, npairs = len(beh), len(pairs)
+    del beh, pairs
     # as many keys as (and more than) initial slots: histories that leave no never-used slot
     # (put/delete of every key) - the table must purge tombstones instead of probing forever
     outf = os.path.join(ctx.scratch, "full.ndjson")
@@ -328,6 +340,8 @@ def run(ctx):
             ctx.report("tlc:HashMap:full:%s" % gf.violated, "hash table design does not refine the dictionary", p)
     full = vt.subsample(vt.read_ndjson(outf), ctx.seed, 3 if q else 1)
     replay_inproc(ctx, exe4, full, "cap4full")
+    nfull = len(full)
+    del full
     ctx.phase("cap4 done")
     # 2b. long histories over 16 keys at the real INIT_SIZE, across 16->32(->64) growth
     out2 = os.path.join(ctx.scratch, "sim.ndjson")
@@ -340,10 +354,11 @@ def run(ctx):
     sim = vt.read_ndjson(out2)
     ctx.sample(dict(kind="long history", h=sim[-1]["h"], ops=len(sim[-1]["hist"]) + 1, cap=sim[-1]["cap"]))
     replay_inproc(ctx, build_hm_harness(ctx, tree, 16), sim, "cap16")
+    nsim = len(sim)
+    del sim
     ctx.phase("cap16 done")
     # 2c. macro level: #define/#undef/-D/-U histories with colliding names through -E
     trd = ctx.tmp("mtrace")
-    mb = vt.subsample(beh, ctx.seed, 80 if q else 4) + vt.subsample(pairs, ctx.seed + 1, 800 if q else 40)
     replay_macros(ctx, tree, mb, trace_to=(trd, 200 if q else 100))
     ctx.sample(dict(kind="macro history", options=macro_case(mb[-1], "cmdline")[0], file=macro_case(mb[-1], "cmdline")[1][:200]))
     ctx.phase("macro done")
@@ -363,7 +378,7 @@ def run(ctx):
     return ctx.finish(
         rule="behaviour = one transition of HashMap.tla's complete state graph (shortest history + one more operation) or one prefix of a simulated long history, replayed on the real hashmap.c / through chibicc -E; non-trivial = at least 2 operations; distinct = distinct (collision pattern, operation sequence, replay mode)",
         exhaustive=True,
-        extra=dict(graph_transitions_replayed=len(beh), extended_transitions_replayed=len(pairs), long_history_prefixes=len(sim), macro_histories=3 * len(mb), guarded_include_histories=nmt, full_table_transitions=len(full)))
+        extra=dict(graph_transitions_replayed=nbeh, extended_transitions_replayed=npairs, long_history_prefixes=nsim, macro_histories=3 * len(mb), guarded_include_histories=nmt, full_table_transitions=nfull))
 
 
 def replay(ctx, path):
